@@ -71,11 +71,18 @@ struct POp {
     int hold;     // user points / yields while inside
     int dur_us;   // for timed forms
     bool explicit_unlock = false;  // handle operations: call unlock() on the returned handle (also on a null one) before it dies
+    bool during_unwind = false;    // the whole operation runs in a destructor while an unrelated exception propagates
+};
+struct HarnessUnwind {};
+template<class F>
+struct RunInDtor {
+    F f;
+    ~RunInDtor() { f(); }
 };
 inline std::string pop_json(const POp& p)
 {
     return std::string("{\"op\":\"") + OPN[p.op] + "\",\"id\":" + std::to_string(p.id) + ",\"hold\":" + std::to_string(p.hold) + ",\"us\":" +
-        std::to_string(p.dur_us) + (p.explicit_unlock ? ",\"unlock()\":1" : "") + "}";
+        std::to_string(p.dur_us) + (p.explicit_unlock ? ",\"unlock()\":1" : "") + (p.during_unwind ? ",\"during_unwind\":1" : "") + "}";
 }
 
 struct OpResult {
@@ -341,7 +348,7 @@ inline Program gen_program(vrf::Rng& rng, int fam, int mut, uint32_t allowed, in
                 }
                 break;
             }
-            sc.push_back(POp{op, id++, static_cast<int>(rng.below(4)), durs[rng.below(4)], rng.chance(25)});
+            sc.push_back(POp{op, id++, static_cast<int>(rng.below(4)), durs[rng.below(4)], rng.chance(25), rng.chance(6)});
             if (id >= 28) break;
         }
         P.scripts.push_back(std::move(sc));
